@@ -33,6 +33,17 @@ CLAIMED = {
    text="Lean theorems: iterations of the parallel loops write disjoint consecutive slot ranges, slot k receives the k-th pair of the serial enumeration, and ANY permutation of the write events (any thread count, chunking, schedule, interleaving) yields the serial output array; plus obligations on the plan re-extracted from dd_dtw_openmp.c on every run (all assigned variables private or block-local; loop header, start column and slot expressions equal the modelled ones; prepare loop as transcribed). Correspondence: six exported *_parallel routines (ctypes) with 1,2,3,7,16,64 threads vs serial bit-exact; Python API OpenMP / multiprocessing (C and Python kernels) vs serial incl. asymmetric psi.",
    note="Partial by nature: re-entrancy of the real kernel (no hidden statics), the OpenMP runtime honouring private(), and multiprocessing.Pool.map order preservation are assumptions; real interleavings are only sampled. The translator handles a C subset and fails closed.",
    technique="Lean 4 proof (permutation invariance of writes to distinct slots) + translator-regenerated plan obligations (decide) + differential correspondence", ref="§6 C07"),
+ "C08": dict(
+   text="Lean theorems (all l1,l2>=1, all windows>=1 / 0, all rows and columns of the loop range): every read/write offset of the two-row rolling buffer of dtw_distance* stays inside its own row of `length` doubles (hence inside the 2*length allocation), incl. the last-row psi scan; the compact warping-paths buffer of the advertised size suffices and rows never overlap; best paths have at most len1+len2-1 entries; distance-matrix routines write exactly slots 0..length-1. Obligation regenerated on every run: the assignments to the index variables, the malloc size, the loop headers and every subscript of the buffer extracted from the four dtw_distance* functions in dd_dtw.c are exactly the transcribed ones. Failing-input search / validation: ASan+UBSan battery over all exported routines with exact-size malloc'ed buffers, red-zone canaries around caller buffers.",
+   note="Partial: proof covers the index arithmetic of the models; reads outside buffers are observable only through the sanitizers; UB beyond index arithmetic (signed overflow at astronomically large lengths, malloc failure paths) is not modelled; the region walks of dtw_warping_paths/dtw_best_path over the compact layout are tied by layout theorems + correspondence (C04/C05), not extracted line by line.",
+   technique="Lean 4 proof (omega over the index expressions) + translator-regenerated index obligations (decide) + sanitizer battery as failing-input search", ref="§6 C08"),
+ "C09": dict(
+   text="Lean theorems: DTW <= Euclidean distance (the diagonal-then-border alignment is admissible for every window >= 1 and any psi; no max_step; no penalty or equal lengths); any row-wise lower bound of the point costs over the band sums to a lower bound of DTW (any penalty, no relaxation of series 1); the Keogh envelope window is exactly the DTW band and each Keogh term (squared/absolute, any signs) is such a row bound; use_pruning with the Euclidean threshold returns the unbounded distance. Correspondence: lb_keogh (Python, C), ed.distance(_fast), ub_euclidean(_ndim), ed_cc.distance_ndim, distance(only_ub) in both engines vs the model (exact), sandwich evaluated on the implementation.",
+   note="Trusted: as C01. Envelope theorem is stated for integer data (the lattice used by the correspondence); real-valued data would need the same inequality over an ordered field. ndim LB_Keogh does not exist in the library.",
+   technique="Lean 4 proof (explicit admissible path; induction over paths) + differential correspondence", ref="§6 C09"),
+ "C10": dict(
+   text="Lean theorems on dtwSpec (which both engines return by C01/C02): non-negativity; symmetry under swapping the series together with the per-series psi entries (transpose of the recurrence); one relaxation lemma giving monotonicity in window, psi, max_step (never increases) and penalty (never decreases); self-distance zero; window=1 on equal lengths equals ED. Correspondence: the laws evaluated on related pairs of calls of both engines, each call also compared with the Lean spec.",
+   note="Trusted: as C01.", technique="Lean 4 proof (pointwise induction on the recurrence) + law evaluation on the implementation", ref="§6 C10"),
 }
 PENDING_REASON = "check under construction in this round (not yet registered); the technique applies, see DESIGN.md §6"
 
